@@ -127,4 +127,32 @@ META = {
                  "Not modelled: BytesMut pointer identity / allocation growth, allocation failure in Map::resize, leaked RemoveIter."),
         "technique": "Lean 4 refinement proofs (abs∘step = spec step / simulation relations) by induction over operation lists + differential correspondence incl. exhaustive short sequences",
     },
+
+    "C14": {
+        "category": "proof",
+        "text": ("Lean theorems: the decode_parameters loop of the model accepts a parameter block exactly when an independently written RFC 9000 "
+                 "18.2 table does (tp_accept_iff_rfc: full iff for RFC-conformant rows; for the rows tied to the code the iff holds on every block "
+                 "outside three proved counterexample classes that are recorded as known findings), unknown parameters ignored, duplicates and "
+                 "server-only parameters from clients rejected, defaults, values and derived limits exact, encode/decode round trip, and the "
+                 "connection-ID authentication matrix equals RFC 9000 7.3. Tie: every parameter's id, default, validator operator and constant "
+                 "is re-extracted from the Rust source AND the RFC table is re-extracted from the offline RFC text, both with bridge lemmas; the "
+                 "Lean driver is run against the real Client/ServerTransportParameters decoders on blocks with every parameter at, inside and "
+                 "outside each bound, all small subsets/orders/duplications, unknown ids, both roles."),
+        "note": ("Trusted: Lean kernel (standard axioms), tools/extract.py, vh-core harness, python RFC oracle. The end-to-end application of the "
+                 "limits is observed through C03/C04 traces (declared parameters are parsed from the TLS messages); TLS extension carriage is not modelled."),
+        "technique": "Lean 4 theorem proving (decoder ⇔ RFC table) + regenerated-table bridges (code and RFC text) + differential correspondence",
+    },
+    "C15": {
+        "category": "proof",
+        "text": ("Lean theorems over a line-by-line model of KeySet (keys = generation numbers, ideal AEAD) and a two-endpoint system with a "
+                 "reordering/duplicating/dropping channel, for all histories: no slot ever seals more packets than the confidentiality limit, "
+                 "the update starts before the limit, the integrity limit closes the connection, a higher packet number is never sealed with an "
+                 "older generation, and both peers keep decrypting genuine packets of the current/next/previous generation. The last two are "
+                 "proved for the repaired code and refuted by concrete counterexamples for the two pre-fix variants. Tie: limits, window and "
+                 "comparison operators re-extracted with bridge lemmas, including which repair guards the source carries; the Lean driver is run "
+                 "against the real KeySet with an instrumented generation-tagged key, as two endpoints with scripted channel, tiny limits."),
+        "note": ("Trusted: Lean kernel (standard axioms), tools/extract.py, vh-core harness, python oracle. AEAD, HKDF and header protection are "
+                 "assumed ideal; live connections with a tiny key-update window (hook h2) are not exercised."),
+        "technique": "Lean 4 invariant proofs over the key-update state machine (two endpoints + adversarial channel) + regenerated-constant bridges + differential correspondence",
+    },
 }
